@@ -228,11 +228,54 @@ def run_case(case, seed=0, replay_dir=None, known=None):
                 err = float(np.max(np.abs(fa - b) / (1.0 + np.abs(b)))) if b.size else 0.0
                 worst = max(worst, err)
         res["validation"] = {"instances": case.n_validate, "max_rel_err": worst}
+        validation_error = None
         if not worst < case.validate_tol:
-            res["errors"].append(f"translator validation failed: interpreter vs real execution differ by {worst:.3e}")
-            res["wall_s"] = time.time() - t_start
-            return res
+            # keep going: if the symbolic stage finds a violation that replays on the real code, the disagreement is the code's
+            # (e.g. a quantity that should not depend on the factorisation LAPACK happens to pick); otherwise it is an engine error
+            validation_error = f"translator validation failed: interpreter vs real execution differ by {worst:.3e}"
 
+        # ---- concrete pre-screen (guided search with every variable pinned to seeded exact rationals): cheap, finds most
+        # wrong formulas before the symbolic stage; a mismatch is only a candidate and is replayed on the real code
+        prescreen_hits = 0
+        for k in range(getattr(case, "n_prescreen", 2)):
+            try:
+                qdom.reset()
+                Vc = case.conc(seed + 31 * k + 5)
+                inp_c = case.inputs(Vc)
+                qdom.NUMERIC[0] = True
+                try:
+                    out_c, _ = interp(inp_c)
+                    rels_c = case.relations(inp_c, out_c)
+                finally:
+                    qdom.NUMERIC[0] = False
+            except Exception:
+                break
+            done = {v["label"] for v in res["violations"]} | {v["label"] for v in res["known"]}
+            for label, lhs, rhs in rels_c:
+                if label in done:
+                    continue
+                lq, rq = Q.lift(lhs), Q.lift(rhs)
+                if not (lq.isconst() and rq.isconst()):
+                    continue
+                a_, b_ = complex(float(lq.c[0]), float(lq.c[1])), complex(float(rq.c[0]), float(rq.c[1]))
+                if abs(a_ - b_) <= 1e-7 * max(1.0, abs(a_), abs(b_)):
+                    continue
+                rep = _replay(case, dict(Vc.values), label, real)
+                if rep["violates"]:
+                    prescreen_hits += 1
+                    key = f"{case.name}:{label}"
+                    path = _write_replay(case, dict(Vc.values), label, rep, replay_dir)
+                    v = {"label": label, "key": key, "replay": path, "detail": rep["summary"]}
+                    res["obligations"].append({"label": label, "status": "known-finding" if (known and key in known) else "violated",
+                                               "seconds": 0.0, "how": "concrete pre-screen (all variables pinned), replayed on the real code"})
+                    (res["known"] if (known and key in known) else res["violations"]).append(v)
+                    done.add(label)
+                if len(res["violations"]) >= getattr(case, "max_violations", 4):
+                    break
+        if res["violations"]:
+            res["symbolic_note"] = (res.get("symbolic_note", "") + " symbolic stage skipped: the concrete pre-screen already found replayed violations").strip()
+            res["wall_s"] = round(time.time() - t_start, 3)
+            return res
         # ---- symbolic run
         holo = case.holo
         while True:
@@ -255,6 +298,10 @@ def run_case(case, seed=0, replay_dir=None, known=None):
         pre = list(case.pre(inp)) + qdom.inverted_nonzero()
         for label, lhs, rhs in rels:
             ob = {"label": label}
+            if len(res["violations"]) >= getattr(case, "max_violations", 4):
+                ob.update(status="skipped (case already violated)", seconds=0.0, how="skipped")
+                res["obligations"].append(ob)
+                continue
             dis, side = qdom.diff_terms(lhs, rhs)
             if not dis:
                 ob.update(status="unsat", seconds=0.0, how="syntactic")
@@ -262,14 +309,25 @@ def run_case(case, seed=0, replay_dir=None, known=None):
                 continue
             asserts = pre + side + [z3.Or(*dis)]
             allv = list(V.vars.values()) + [z3.Real(n) for n in P_VARS.names if n.startswith("@")]
-            r = dec.decide(asserts, timeout_ms=int(case.timeout_s * 1000), seed=seed,
-                           guided_first=case.guided_first, variables=allv)
+            r = None
+            polys = qdom.diff_polys(lhs, rhs)
+            big = polys is not None and sum(len(d.d) for d in polys if isinstance(d, P)) > 150000
+            if polys is not None and any(isinstance(d, P) for d in polys):
+                # the normal form of the difference is a non-zero polynomial: look for a point where it does not vanish
+                w = _sample_nonzero(polys, V, seed)
+                if w is not None:
+                    r = dec.Result("sat", _FakeModel(w), 0.0, "non-zero normal form evaluated at a seeded rational point", len(allv))
+            if r is None and big:
+                r = dec.Result("unknown", None, 0.0, "difference polynomial too large for the solver and no witness sampled", len(allv))
+            if r is None:
+                r = dec.decide(asserts, timeout_ms=int(case.timeout_s * 1000), seed=seed,
+                               guided_first=case.guided_first, variables=allv)
             ob.update(status=r.status, seconds=round(r.seconds, 3), how=r.how, nvars=r.nvars)
             if len(res["samples"]) < 2:
                 s = dec.to_smt2(asserts)
                 res["samples"].append({"label": label, "smt2_head": s[:1500], "smt2_bytes": len(s)})
             if r.status == "sat":
-                vals = {n: dec.model_value(r.model, v) for n, v in V.vars.items()}
+                vals = r.model.vals if isinstance(r.model, _FakeModel) else {n: dec.model_value(r.model, v) for n, v in V.vars.items()}
                 rep = _replay(case, vals, label, real)
                 ob["replay"] = rep["summary"]
                 if rep["violates"]:
@@ -288,6 +346,10 @@ def run_case(case, seed=0, replay_dir=None, known=None):
             elif r.status == "unknown":
                 res["inconclusive"].append(label)
             res["obligations"].append(ob)
+        if validation_error and not res["violations"] and not res["known"]:
+            res["errors"].append(validation_error)
+        elif validation_error:
+            res["validation"]["note"] = validation_error + " (explained by the replayed violation)"
         # ---- vacuity guard: reachability twin.  The same harness with the post-condition replaced by the
         # wrong claim "lhs == 2*rhs" must come back violated (sat): this shows the precondition is satisfiable,
         # the assertion is reached and the compared quantity is not identically zero.
@@ -319,6 +381,35 @@ def run_case(case, seed=0, replay_dir=None, known=None):
         res["errors"].append(f"{type(ex).__name__}: {ex}\n{traceback.format_exc()[-1500:]}")
     res["wall_s"] = round(time.time() - t_start, 3)
     return res
+
+
+class _FakeModel:
+    def __init__(self, vals):
+        self.vals = vals
+
+
+def _sample_nonzero(polys, V, seed, tries=6):
+    import random
+    rng = random.Random(seed + 991)
+    names = P_VARS.names
+    for _ in range(tries):
+        point = {}
+        vals = {}
+        for i, n in enumerate(names):
+            v = Fraction(rng.randint(1, 5) if n.startswith("@") else rng.randint(-4, 4), rng.choice([1, 2, 3]))
+            if v == 0:
+                v = Fraction(1, 2)
+            point[i] = v
+            if n in V.vars:
+                vals[n] = v
+        for n in V.vars:
+            vals.setdefault(n, Fraction(0))
+        try:
+            if any(isinstance(d, P) and d.eval(point) != 0 for d in polys):
+                return vals
+        except Exception:
+            return None
+    return None
 
 
 def _num(a):
